@@ -65,4 +65,7 @@ def gen(rng, tier):
                     reqs.append("C19 i.abs_sub %s %s" % (wi(sa * m), wi(sb * o)))
                 if rng.randrange(4) == 0:
                     reqs.append("C19 i.abs_sub@ %s %s %s" % (wi(big(rng, 12)), wi(signed(rng, m)), wi(signed(rng, o))))
+    # api-coverage block: the inherent associated consts
+    reqs.append("C19 u.inherent_zero")
+    reqs.append("C19 i.inherent_zero")
     return reqs
